@@ -190,4 +190,104 @@ Section Wake.
       repeat split; auto; try discriminate.
       intros _ Hv _. subst v. simpl in T1. lia.
   Qed.
+
+  Theorem reach_wake c s : reach c s -> WakeInv c s.
+  Proof.
+    induction 1 as [|s l s' Hr IH Hs]; [apply wake_init|].
+    eapply wake_step; eauto. - apply (reach_TicketInv MBs MBu c s Hr). - apply (reach_ghost MBs MBu HS HU c s Hr).
+  Qed.
+
+  (* ---- consequences *)
+  (* a message the turn loop would consume *)
+  Definition pending (s : state) : Prop := 0 < lps s \/ (paused s = false /\ 0 < lpu s).
+
+  (* not inside doReceive / a turn / take-with-a-ticket *)
+  Definition idle_pc (p : pc) : bool :=
+    match p with PIdle | WIdle | RSpin | RInit | RReset | RDone => true | _ => false end.
+  Definition quiescent (s : state) : Prop := forallb idle_pc (ths s) = true.
+
+  Lemma idle_cnt0 f l : (forall p, idle_pc p = true -> f p = 0) -> forallb idle_pc l = true -> cnt f l = 0.
+  Proof.
+    intros Hf. induction l as [|p r IH]; simpl; [reflexivity|]. intros H. apply andb_true_iff in H. destruct H as [H1 H2].
+    rewrite (Hf p H1), (IH H2). reflexivity.
+  Qed.
+
+  (* No lost wake-up, safety form: at quiescence (every producer has left doReceive, every worker is back in
+     take) a pending message implies the actor is Scheduled and its ticket sits in the ready queue. *)
+  Theorem quiescent_pending_has_ticket c s : restart_resets c = false -> reach c s -> quiescent s -> pending s ->
+    st s = Scheduled /\ tickets s = 1.
+  Proof.
+    intros Hc Hr Hq Hp. pose proof (reach_offresets MBs MBu c s Hc Hr) as H0.
+    destruct (reach_wake c s Hr H0) as (_ & _ & _ & W4 & W5).
+    destruct (reach_TicketInv MBs MBu c s Hr H0) as [T1 T2].
+    assert (Z1 : cnt prod_mid (ths s) = 0) by (apply idle_cnt0; [intros [] E; simpl in *; congruence|exact Hq]).
+    assert (Z2 : cnt (post_usr (grain c)) (ths s) = 0) by (apply idle_cnt0; [intros [] E; simpl in *; try congruence; destruct (grain c); congruence|exact Hq]).
+    assert (Z3 : cnt (post_sys (grain c)) (ths s) = 0) by (apply idle_cnt0; [intros [] E; simpl in *; try congruence; destruct (grain c); congruence|exact Hq]).
+    assert (Z4 : cnt owns (ths s) = 0) by (apply idle_cnt0; [intros [] E; simpl in *; congruence|exact Hq]).
+    assert (Z5 : cnt holds_ticket (ths s) = 0) by (apply idle_cnt0; [intros [] E; simpl in *; congruence|exact Hq]).
+    destruct (st s) eqn:Ev; simpl in *.
+    - exfalso. destruct Hp as [Hp|[Hp1 Hp2]]; [specialize (W5 eq_refl Hp)|specialize (W4 Hp1 eq_refl Hp2)]; lia.
+    - split; [reflexivity|lia].
+    - lia.
+  Qed.
+
+  (* No deadlock: whenever a message is pending and at least one worker exists, some producer or worker thread
+     (not a restarter's spin) can take a step. *)
+  Definition is_worker (p : pc) : bool :=
+    match p with
+    | WIdle | WTaken | WDeqSys _ | WDeqUsr _ | WHandler _ _ | WReset _ | WChkUsr _ | WChkSys _ | WChkPaused _
+    | WRecLoad _ | WRecCas _ | WRecTake _ | WYield | WRepush => true
+    | _ => false
+    end.
+  Definition is_restarter (p : pc) : bool := match p with RSpin | RInit | RReset | RDone => true | _ => false end.
+
+  Lemma step_pc_enabled c (s : state) i p : nth_error (ths s) i = Some p -> idle_pc p = false ->
+    exists s', step c s (LStep i) = Some s'.
+  Proof.
+    intros Hn Hi. simpl. rewrite Hn.
+    destruct p; simpl in *; try discriminate;
+      repeat match goal with
+             | |- context [match ?x with _ => _ end] => destruct x
+             | |- context [if ?x then _ else _] => destruct x
+             end; eauto.
+  Qed.
+
+  Lemma not_quiescent_has_busy l : forallb idle_pc l = false -> exists i p, nth_error l i = Some p /\ idle_pc p = false.
+  Proof.
+    induction l as [|p r IH]; simpl; [discriminate|]. intros H.
+    destruct (idle_pc p) eqn:E.
+    - destruct (IH H) as (i & q & Hi & Hq). exists (S i), q. auto.
+    - exists 0, p. auto.
+  Qed.
+
+  Theorem no_deadlock c s : restart_resets c = false -> reach c s -> pending s ->
+    (exists j q, nth_error (ths s) j = Some q /\ is_worker q = true) ->
+    exists i p s', nth_error (ths s) i = Some p /\ is_restarter p = false /\ step c s (LStep i) = Some s'.
+  Proof.
+    intros Hc Hr Hp (j & q & Hj & Hq).
+    destruct (forallb idle_pc (ths s)) eqn:Eq.
+    - (* quiescent: the ticket is queued and the idle worker can take it *)
+      destruct (quiescent_pending_has_ticket c s Hc Hr Eq Hp) as [_ Ht].
+      assert (Hqi : idle_pc q = true).
+      { clear - Eq Hj. revert j Hj. induction (ths s) as [|p r IH]; intros [|j] Hj; simpl in *; try discriminate.
+        - inversion Hj; subst. apply andb_true_iff in Eq. tauto.
+        - apply andb_true_iff in Eq. eapply IH; [tauto|exact Hj]. }
+      destruct q; simpl in Hq, Hqi; try discriminate.
+      exists j, WIdle. simpl. rewrite Hj. simpl. rewrite Ht. eexists. repeat split; eauto.
+    - (* some thread is mid-operation; threads mid-operation that are idle_pc = false are producers or workers *)
+      destruct (not_quiescent_has_busy _ Eq) as (i & p & Hi & Hb).
+      destruct (step_pc_enabled c s i p Hi Hb) as [s' Hs'].
+      exists i, p, s'. repeat split; auto. destruct p; simpl in *; try reflexivity; discriminate.
+  Qed.
+
+  (* dequeues are only ever executed by the unique turn owner (single-consumer discipline of the mailboxes) *)
+  Theorem single_consumer c s i j p q : restart_resets c = false -> reach c s ->
+    nth_error (ths s) i = Some p -> nth_error (ths s) j = Some q ->
+    (exists n, p = WDeqSys n \/ p = WDeqUsr n) -> (exists n, q = WDeqSys n \/ q = WDeqUsr n) -> i = j.
+  Proof.
+    intros Hc Hr Hi Hj (n & Hp) (m & Hq).
+    destruct (mutex MBs MBu c s Hc Hr) as [Ho _]. eapply Ho; eauto.
+    - destruct Hp; subst; reflexivity.
+    - destruct Hq; subst; reflexivity.
+  Qed.
 End Wake.
